@@ -8,7 +8,9 @@ import (
 	"os"
 	"path/filepath"
 	"strconv"
+	"strings"
 	"sync"
+	"syscall"
 	"time"
 
 	"github.com/nats-io/nats.go"
@@ -19,6 +21,10 @@ import (
 
 var portMu sync.Mutex
 var portNext int
+var portLo, portHi int
+var portLocks = map[int]string{}
+
+const portLockDir = "/tmp/verif-portlocks"
 
 func portBase() int {
 	if s := os.Getenv("VERIF_PORT_BASE"); s != "" {
@@ -30,9 +36,56 @@ func portBase() int {
 }
 
 // SetPortBlock gives a check its own block of ports (index = property number).
+// Blocks are disjoint (1900 ports each, 21000..59000) and allocation wraps inside
+// the block; every process starts at a different offset.
 func SetPortBlock(index int) {
 	portMu.Lock()
-	portNext = portBase() + 400*index
+	if os.Getenv("VERIF_PORT_BASE") != "" {
+		portLo = portBase()
+		portHi = portLo + 1900
+	} else {
+		portLo = 21000 + 1900*(index%20)
+		portHi = portLo + 1900
+	}
+	portNext = portLo + (os.Getpid()*37)%1900
+	portMu.Unlock()
+}
+
+// lockPort takes a cross-process lock on a port (a file holding our pid), so that two harness
+// processes probing at the same time cannot both pick it.
+func lockPort(p int) bool {
+	_ = os.MkdirAll(portLockDir, 0o777)
+	name := filepath.Join(portLockDir, strconv.Itoa(p))
+	for try := 0; try < 2; try++ {
+		f, err := os.OpenFile(name, os.O_CREATE|os.O_EXCL|os.O_WRONLY, 0o666)
+		if err == nil {
+			fmt.Fprintf(f, "%d", os.Getpid())
+			f.Close()
+			portLocks[p] = name
+			return true
+		}
+		// stale lock of a process that is gone?
+		b, rerr := os.ReadFile(name)
+		pid, _ := strconv.Atoi(strings.TrimSpace(string(b)))
+		if rerr == nil && pid > 0 && pid != os.Getpid() {
+			if perr := syscall.Kill(pid, 0); perr != nil {
+				_ = os.Remove(name)
+				continue
+			}
+		}
+		return false
+	}
+	return false
+}
+
+func unlockPorts(ports [4]int) {
+	portMu.Lock()
+	for _, p := range ports {
+		if name, ok := portLocks[p]; ok {
+			_ = os.Remove(name)
+			delete(portLocks, p)
+		}
+	}
 	portMu.Unlock()
 }
 
@@ -40,25 +93,32 @@ func freePort() int {
 	portMu.Lock()
 	defer portMu.Unlock()
 	if portNext == 0 {
-		portNext = portBase()
+		portLo = portBase()
+		portHi = portLo + 1900
+		portNext = portLo + (os.Getpid()*37)%1900
 	}
 	for i := 0; i < 20000; i++ {
 		p := portNext
 		portNext++
-		if portNext > 60000 {
-			portNext = portBase()
+		if portNext >= portHi {
+			portNext = portLo
 		}
-		l, err := net.Listen("tcp", fmt.Sprintf("127.0.0.1:%d", p))
-		if err != nil {
+		if !lockPort(p) {
 			continue
 		}
-		l.Close()
-		l2, err := net.Listen("tcp", fmt.Sprintf(":%d", p))
-		if err != nil {
-			continue
+		ok := false
+		if l, err := net.Listen("tcp", fmt.Sprintf("127.0.0.1:%d", p)); err == nil {
+			l.Close()
+			if l2, err := net.Listen("tcp", fmt.Sprintf(":%d", p)); err == nil {
+				l2.Close()
+				ok = true
+			}
 		}
-		l2.Close()
-		return p
+		if ok {
+			return p
+		}
+		_ = os.Remove(portLocks[p])
+		delete(portLocks, p)
 	}
 	panic("no free port")
 }
@@ -89,13 +149,28 @@ type Instance struct {
 	stopOnce sync.Once
 	conns    []*nats.Conn
 	mu       sync.Mutex
+	fresh    bool
 }
 
 // ErrInfra marks failures of the harness infrastructure (inconclusive, not violations).
 var ErrInfra = errors.New("infrastructure")
 
-// StartInstance starts an instance and waits until it is ready and quiet.
+// StartInstance starts an instance and waits until it is ready and quiet. Infrastructure
+// failures (a port lost to another process between probing and binding) are retried.
 func StartInstance(cfg InstCfg) (*Instance, error) {
+	var in *Instance
+	var err error
+	for try := 0; try < 4; try++ {
+		in, err = startInstanceOnce(cfg)
+		if err == nil || !errors.Is(err, ErrInfra) || cfg.Ports[0] != 0 && try >= 1 {
+			return in, err
+		}
+		time.Sleep(50 * time.Millisecond)
+	}
+	return in, err
+}
+
+func startInstanceOnce(cfg InstCfg) (*Instance, error) {
 	in := &Instance{Cfg: cfg}
 	if cfg.StoreFile == "" {
 		d, err := os.MkdirTemp("", "verif-inst-")
@@ -107,9 +182,20 @@ func StartInstance(cfg InstCfg) (*Instance, error) {
 	} else {
 		in.Dir = filepath.Dir(cfg.StoreFile)
 	}
+	_, serr := os.Stat(cfg.StoreFile)
+	in.fresh = serr != nil
 	ports := cfg.Ports
 	if ports[0] == 0 {
 		ports = [4]int{freePort(), freePort(), freePort(), freePort()}
+	} else {
+		// a restart on the ports of a stopped instance: take the locks again
+		portMu.Lock()
+		for _, p := range ports {
+			if _, mine := portLocks[p]; !mine {
+				lockPort(p)
+			}
+		}
+		portMu.Unlock()
 	}
 	in.Ports = ports
 	np := ports[0]
@@ -141,7 +227,17 @@ func StartInstance(cfg InstCfg) (*Instance, error) {
 	err = srv.WaitStart(ctx)
 	cancel()
 	if err != nil {
+		in.abort()
 		return nil, fmt.Errorf("%w: WaitStart: %v", ErrInfra, err)
+	}
+	// the bus server of this instance must be ours: if its port was taken by another process in the
+	// meantime, Run fails ("address already in use") while the store would happily join the foreign bus
+	select {
+	case e := <-in.runErr:
+		in.runErr <- e
+		in.abort()
+		return nil, fmt.Errorf("%w: instance ended during start-up: %v", ErrInfra, e)
+	case <-time.After(20 * time.Millisecond):
 	}
 	in.Started = time.Now()
 	// readiness: the node manager writes versionApp to the root once at start-up
@@ -150,9 +246,20 @@ func StartInstance(cfg InstCfg) (*Instance, error) {
 		nodes, err := client.GetNodes(nc, "root", "all", "", false)
 		if err == nil && len(nodes) > 0 {
 			in.RootID = nodes[0].ID
+			if cfg.ID != "" && in.fresh && in.RootID != cfg.ID {
+				in.abort()
+				return nil, fmt.Errorf("%w: the bus on port %d answers with root %q, not %q (port taken by another process)", ErrInfra, np, in.RootID, cfg.ID)
+			}
 			if _, ok := nodes[0].Points.Find(data.PointTypeVersionApp, ""); ok {
 				break
 			}
+		}
+		select {
+		case e := <-in.runErr:
+			in.runErr <- e
+			in.abort()
+			return nil, fmt.Errorf("%w: instance ended during start-up: %v", ErrInfra, e)
+		default:
 		}
 		if time.Now().After(deadline) {
 			in.Stop()
@@ -161,6 +268,19 @@ func StartInstance(cfg InstCfg) (*Instance, error) {
 		time.Sleep(5 * time.Millisecond)
 	}
 	return in, nil
+}
+
+// abort gives up a half-started instance.
+func (in *Instance) abort() {
+	in.stopOnce.Do(func() { in.Srv.Stop(nil) })
+	select {
+	case <-in.runErr:
+	case <-time.After(10 * time.Second):
+	}
+	unlockPorts(in.Ports)
+	if in.ownDir {
+		os.RemoveAll(in.Dir)
+	}
 }
 
 // Age returns how long the instance has been up.
@@ -195,6 +315,7 @@ func (in *Instance) StopWait(limit time.Duration) (returned bool, runErr error) 
 	select {
 	case e := <-in.runErr:
 		in.runErr <- e
+		unlockPorts(in.Ports)
 		return true, e
 	case <-time.After(limit):
 		return false, nil
